@@ -53,7 +53,7 @@ theorem exec_append (E : EvalEnv) (a b : List Op) (s : St) :
 
 /-- the fragment set covered by T3 so far. -/
 def inS1 : Ms → Bool
-  | .f0 | .f1 | .pk_k _ | .pk_h _ | .hash _ _ => true
+  | .f0 | .f1 | .pk_k _ | .pk_h _ | .hash _ _ | .older _ | .after _ => true
   | .wrap w x => (w == .c || w == .v || w == .a || w == .n || w == .s || w == .d) && inS1 x
   | .bin b x y =>
     (b == .and_v || b == .and_b || b == .or_b || b == .or_i || b == .or_c || b == .or_d) &&
@@ -106,6 +106,12 @@ theorem exec_skip (E : EvalEnv) (ctx : Ctx) (h160 : Bytes → Bytes) :
   | .pk_h k, _, st, al, cs, _, hc => by
     have hs := fun o ho os => exec_cons_skip E o os st al cs ho hc
     simp [opsOf, hs .dup rfl, hs .hash160 rfl, hs (.push (h160 k)) rfl, hs .equalverify rfl]
+  | .older n, _, st, al, cs, _, hc => by
+    have hs := fun o ho os => exec_cons_skip E o os st al cs ho hc
+    simp [opsOf, hs (.pushnum n) rfl, hs .csv rfl]
+  | .after n, _, st, al, cs, _, hc => by
+    have hs := fun o ho os => exec_cons_skip E o os st al cs ho hc
+    simp [opsOf, hs (.pushnum n) rfl, hs .cltv rfl]
   | .hash h d, v, st, al, cs, _, hc => by
     have hs := fun o ho os => exec_cons_skip E o os st al cs ho hc
     cases v <;> simp [opsOf, hs .size rfl, hs (.pushnum 32) rfl, hs .equalverify rfl, hs (.hashop h) rfl,
@@ -155,6 +161,8 @@ inductive Sat (E : EvalEnv) : Ms → List Bytes → Prop
   | pk_k (k : Key) (σ : Bytes) : E.sigOK k σ = true → Sat E (.pk_k k) [σ]
   | pk_h (k : Key) (σ : Bytes) : E.sigOK k σ = true → Sat E (.pk_h k) [k, σ]
   | hash (h : HashKind) (d p : Bytes) : p.length = 32 → E.hashF h p = d → Sat E (.hash h d) [p]
+  | older (n : Nat) : E.csvOK (encodeNum n) = true → Sat E (.older n) []
+  | after (n : Nat) : E.cltvOK (encodeNum n) = true → Sat E (.after n) []
   | wrap (w : Wrap) (x : Ms) (s : List Bytes) : w ≠ .d → w ≠ .j → Sat E x s → Sat E (.wrap w x) s
   | wrap_d (x : Ms) (s : List Bytes) : Sat E x s → Sat E (.wrap .d x) ([1] :: s)
   | and_v (x y : Ms) (sx sy : List Bytes) :
@@ -505,6 +513,7 @@ end
 /-- in S1, and typed at every node. -/
 def s1Typed (ctx : Ctx) : Ms → Bool
   | .f0 | .f1 | .pk_k _ | .pk_h _ | .hash _ _ => true
+  | .older n | .after n => decide (1 ≤ n) && decide (n < 2 ^ 31)
   | .wrap w x =>
     (w == .c || w == .v || w == .a || w == .n || w == .s || w == .d) &&
       decide ((typeOf ctx (.wrap w x)).basicCount = 1) && s1Typed ctx x
@@ -517,7 +526,7 @@ def s1Typed (ctx : Ctx) : Ms → Bool
   | _ => false
 
 theorem inS1_of_s1Typed (ctx : Ctx) : ∀ n, s1Typed ctx n = true → inS1 n = true
-  | .f0, _ | .f1, _ | .pk_k _, _ | .pk_h _, _ | .hash _ _, _ => rfl
+  | .f0, _ | .f1, _ | .pk_k _, _ | .pk_h _, _ | .hash _ _, _ | .older _, _ | .after _, _ => rfl
   | .wrap w x, h => by
     simp only [s1Typed, Bool.and_eq_true] at h
     simp [inS1, h.1.1, inS1_of_s1Typed ctx x h.2]
@@ -527,8 +536,7 @@ theorem inS1_of_s1Typed (ctx : Ctx) : ∀ n, s1Typed ctx n = true → inS1 n = t
   | .andor x y z, h => by
     simp only [s1Typed, Bool.and_eq_true] at h
     simp [inS1, inS1_of_s1Typed ctx x h.1.1.2, inS1_of_s1Typed ctx y h.1.2, inS1_of_s1Typed ctx z h.2]
-  | .older _, h | .after _, h | .multi _ _, h | .multi_a _ _, h
-  | .thresh _ _ _, h => by simp [s1Typed] at h
+  | .multi _ _, h | .multi_a _ _, h | .thresh _ _ _, h => by simp [s1Typed] at h
 
 theorem exec_cons_run (E : EvalEnv) (o : Op) (os : List Op) (st al : List Bytes)
     (cs : List Bool) (ho : o.isControl = false) (hc : executing cs = true) :
@@ -661,6 +669,67 @@ theorem sound_hash (h : HashKind) (d : Bytes) : Sound E ctx h160 (.hash h d) := 
       simp only [if_true, Bool.false_eq_true, if_false, List.append_nil]
       rw [exec_append, run true p stk al cs hc hp, Option.bind_some]
       simp [exec_cons_run E .equalverify [] _ al cs rfl hc, stepExec, hd]
+
+theorem lock_props (a b : Bool) (p q : Props) (hpq : (p = { g := true } ∧ q = { h := true }) ∨ (p = { i := true } ∧ q = { j := true })) :
+    let r := (Props.when a p ||| Props.when b q) |||
+      ({ B := true, z := true, f := true, m := true, x := true, k := true } : Props)
+    r.basicCount = 1 ∧ r.B = true ∧ r.x = true ∧ r.u = false ∧ r.z = true ∧ r.o = false := by
+  rcases hpq with ⟨rfl, rfl⟩ | ⟨rfl, rfl⟩ <;> cases a <;> cases b <;> decide
+
+theorem ty_older (n : Nat) : Typed ctx (.older n) ∧ (typeOf ctx (.older n)).B = true ∧
+    (typeOf ctx (.older n)).x = true ∧ (typeOf ctx (.older n)).u = false ∧
+    (typeOf ctx (.older n)).z = true ∧ (typeOf ctx (.older n)).o = false := by
+  have key := lock_props (Nat.land n SEQUENCE_LOCKTIME_TYPE_FLAG != 0)
+    (Nat.land n SEQUENCE_LOCKTIME_TYPE_FLAG == 0) ({ g := true } : Props) ({ h := true } : Props)
+    (Or.inl ⟨rfl, rfl⟩)
+  have e : (olderProperties n).sanitized = olderProperties n := by
+    simp only [Props.sanitized]; rw [if_pos]; exact key.1
+  unfold Typed
+  simp only [typeOf, e]
+  exact key
+
+theorem ty_after (n : Nat) : Typed ctx (.after n) ∧ (typeOf ctx (.after n)).B = true ∧
+    (typeOf ctx (.after n)).x = true ∧ (typeOf ctx (.after n)).u = false ∧
+    (typeOf ctx (.after n)).z = true ∧ (typeOf ctx (.after n)).o = false := by
+  have key := lock_props (decide (n ≥ LOCKTIME_THRESHOLD)) (decide (n < LOCKTIME_THRESHOLD))
+    ({ i := true } : Props) ({ j := true } : Props) (Or.inr ⟨rfl, rfl⟩)
+  have e : (afterProperties n).sanitized = afterProperties n := by
+    simp only [Props.sanitized]; rw [if_pos]; exact key.1
+  unfold Typed
+  simp only [typeOf, e]
+  exact key
+
+theorem truthy_encodeNum (n : Nat) (h1 : 1 ≤ n) (h2 : n < 2 ^ 31) : Truthy (encodeNum n) := by
+  unfold Truthy numTruth
+  simp [encodeNum_length_le n h2, castToBool_encodeNum n (by omega)]
+
+theorem sound_older (n : Nat) (h1 : 1 ≤ n) (h2 : n < 2 ^ 31) : Sound E ctx h160 (.older n) := by
+  obtain ⟨ht, hB, hx, hu, _, _⟩ := ty_older ctx n
+  have hsat : ∀ s stk al cs, executing cs = true → Sat E (.older n) s → ∃ v, Truthy v ∧
+      ((typeOf ctx (.older n)).u = true → v = [1]) ∧
+      exec E (opsOf ctx h160 false (.older n)) ⟨s ++ stk, al, cs⟩ = some ⟨v :: stk, al, cs⟩ := by
+    intro s stk al cs hc hs
+    cases hs with
+    | older _ hok =>
+      refine ⟨encodeNum n, truthy_encodeNum n h1 h2, (fun h => by rw [hu] at h; cases h), ?_⟩
+      simp [opsOf, exec_cons_run E (.pushnum n) _ _ al cs rfl hc,
+        exec_cons_run E .csv [] _ al cs rfl hc, stepExec, hok]
+  refine sound_of_B E ctx h160 _ ht hB ⟨hsat, ?_, bVer_of_x' E ctx h160 _ hx rfl hsat⟩
+  intro s stk al cs _ hs; cases hs
+
+theorem sound_after (n : Nat) (h1 : 1 ≤ n) (h2 : n < 2 ^ 31) : Sound E ctx h160 (.after n) := by
+  obtain ⟨ht, hB, hx, hu, _, _⟩ := ty_after ctx n
+  have hsat : ∀ s stk al cs, executing cs = true → Sat E (.after n) s → ∃ v, Truthy v ∧
+      ((typeOf ctx (.after n)).u = true → v = [1]) ∧
+      exec E (opsOf ctx h160 false (.after n)) ⟨s ++ stk, al, cs⟩ = some ⟨v :: stk, al, cs⟩ := by
+    intro s stk al cs hc hs
+    cases hs with
+    | after _ hok =>
+      refine ⟨encodeNum n, truthy_encodeNum n h1 h2, (fun h => by rw [hu] at h; cases h), ?_⟩
+      simp [opsOf, exec_cons_run E (.pushnum n) _ _ al cs rfl hc,
+        exec_cons_run E .cltv [] _ al cs rfl hc, stepExec, hok]
+  refine sound_of_B E ctx h160 _ ht hB ⟨hsat, ?_, bVer_of_x' E ctx h160 _ hx rfl hsat⟩
+  intro s stk al cs _ hs; cases hs
 
 theorem sound_c (x : Ms) (ht : Typed ctx (.wrap .c x)) (ih : Sound E ctx h160 x) :
     Sound E ctx h160 (.wrap .c x) := by
@@ -1282,6 +1351,12 @@ theorem len_s1 : ∀ (n : Ms), s1Typed ctx n = true →
   | .hash hk d, _ => by
     have hz : (typeOf ctx (.hash hk d)).z = false := rfl
     constructor <;> intro s hs <;> cases hs <;> simp [Len, hz]
+  | .older n, _ => by
+    obtain ⟨_, _, _, _, _, ho⟩ := ty_older ctx n
+    constructor <;> intro s hs <;> cases hs <;> simp [Len, ho]
+  | .after n, _ => by
+    obtain ⟨_, _, _, _, _, ho⟩ := ty_after ctx n
+    constructor <;> intro s hs <;> cases hs <;> simp [Len, ho]
   | .wrap w x, h => by
     simp only [s1Typed, Bool.and_eq_true, Bool.or_eq_true, beq_iff_eq, decide_eq_true_eq] at h
     obtain ⟨ihs, ihd⟩ := len_s1 x h.2
@@ -1352,8 +1427,7 @@ theorem len_s1 : ∀ (n : Ms), s1Typed ctx n = true →
       cases hs with
       | andor _ _ _ sx sz hsx hsz => exact len_andor hz ho (xd _ hsx) (Or.inr (zd _ hsz))
       | andor_y _ _ _ sx sy hsx hsy => exact len_andor hz ho (xs _ hsx) (Or.inl (yd _ hsy))
-  | .older _, h | .after _, h | .multi _ _, h | .multi_a _ _, h
-  | .thresh _ _ _, h => by simp [s1Typed] at h
+  | .multi _ _, h | .multi_a _ _, h | .thresh _ _ _, h => by simp [s1Typed] at h
 
 theorem sound_s (x : Ms) (ht : Typed ctx (.wrap .s x)) (ih : Sound E ctx h160 x)
     (hlen : ∀ s, (Sat E x s ∨ Dsat E x s) → Len (typeOf ctx x) s) :
@@ -1427,6 +1501,12 @@ theorem sound_s1 (hsig0 : ∀ k, E.sigOK k [] = false) (hH : ∀ k, E.hashF .has
   | .pk_k k, _ => sound_pk_k E ctx h160 hsig0 k
   | .pk_h k, _ => sound_pk_h E ctx h160 hsig0 hH k
   | .hash h d, _ => sound_hash E ctx h160 h d
+  | .older n, h => by
+    simp only [s1Typed, Bool.and_eq_true, decide_eq_true_eq] at h
+    exact sound_older E ctx h160 n h.1 h.2
+  | .after n, h => by
+    simp only [s1Typed, Bool.and_eq_true, decide_eq_true_eq] at h
+    exact sound_after E ctx h160 n h.1 h.2
   | .wrap w x, h => by
     simp only [s1Typed, Bool.and_eq_true, Bool.or_eq_true, beq_iff_eq, decide_eq_true_eq] at h
     have ih := sound_s1 hsig0 hH x h.2
@@ -1459,8 +1539,7 @@ theorem sound_s1 (hsig0 : ∀ k, E.sigOK k [] = false) (hH : ∀ k, E.hashF .has
     exact sound_andor E ctx h160 x y z h.1.1.1 (inS1_of_s1Typed ctx y h.1.2)
       (inS1_of_s1Typed ctx z h.2) (sound_s1 hsig0 hH x h.1.1.2) (sound_s1 hsig0 hH y h.1.2)
       (sound_s1 hsig0 hH z h.2)
-  | .older _, h | .after _, h | .multi _ _, h | .multi_a _ _, h
-  | .thresh _ _ _, h => by simp [s1Typed] at h
+  | .multi _ _, h | .multi_a _ _, h | .thresh _ _ _, h => by simp [s1Typed] at h
 
 end
 
